@@ -35,10 +35,11 @@ type c01gen struct {
 	path []string
 	svcs []string
 	secs []string
+	eps  map[string][]string // key -> last published address list ("ip:r|n:pod")
 }
 
 func newC01Gen(r *gen.Rng, rich bool) *c01gen {
-	g := &c01gen{r: r, rich: rich, ing: map[string]world.IngressSpec{}, svc: map[string]int{}, sec: map[string]int{}, pods: map[string]bool{},
+	g := &c01gen{r: r, rich: rich, ing: map[string]world.IngressSpec{}, svc: map[string]int{}, sec: map[string]int{}, pods: map[string]bool{}, eps: map[string][]string{},
 		ns: []string{"d", "e"}, host: []string{"a.local", "b.local", ""}, path: []string{"/", "/a", "/b"},
 		svcs: []string{"app", "api"}, secs: []string{"tls1", "tls2"}}
 	if r.Chance(1, 3) {
@@ -101,6 +102,26 @@ func (g *c01gen) svcOp(ns, name string) string {
 func (g *c01gen) epOp(ns, name string) string {
 	base := map[string]int{"app": 1, "api": 2}[name]
 	nsb := map[string]int{"d": 0, "e": 1}[ns]
+	// readiness flip: the same address set, one or all addresses change side between `addresses` and
+	// `notReadyAddresses` (with drain-support the only difference is the server weight) — after seed C03e
+	if last := g.eps[ns+"/"+name]; len(last) > 0 && g.r.Chance(1, 3) {
+		as := append([]string(nil), last...)
+		k := g.r.Intn(len(as))
+		all := g.r.Chance(1, 3)
+		for i := range as {
+			if i == k || all {
+				f := strings.Split(as[i], ":")
+				if f[1] == "r" {
+					f[1] = "n"
+				} else {
+					f[1] = "r"
+				}
+				as[i] = strings.Join(f, ":")
+			}
+		}
+		g.eps[ns+"/"+name] = as
+		return fmt.Sprintf("ep~%s/%s!%s", ns, name, strings.Join(as, "+"))
+	}
 	n := g.r.Range(0, 3)
 	var as []string
 	used := map[int]bool{}
@@ -116,6 +137,7 @@ func (g *c01gen) epOp(ns, name string) string {
 		}
 		as = append(as, fmt.Sprintf("10.%d.%d.%d:%s:%s-%d", nsb, base, k, rd, name, k))
 	}
+	g.eps[ns+"/"+name] = as
 	if len(as) == 0 {
 		return fmt.Sprintf("ep~%s/%s!-", ns, name)
 	}
